@@ -270,19 +270,29 @@ def gen_case(rng, tier):
     return case
 
 
+REJECTED = {"grids": 0}
+
+
 def _valid_grid(gs, rng):
-    """Reduce the perturbation until all cells have a sane volume (mutates gs)."""
-    for _ in range(6):
-        g = build_grid(gs)
-        ref = g.cell_volumes.sum() / g.num_cells
-        if g.cell_volumes.min() > (0.05 if gs["kind"] != "deltri" else 0.02) * ref and np.all(np.isfinite(g.face_normals)):
-            return g
+    """Reduce the perturbation until porepy accepts the grid (compute_geometry raises e.g. on inverted tetrahedra) and all
+    cells have a sane volume (mutates gs); rejected attempts are counted for stats()."""
+    for _ in range(8):
+        try:
+            g = build_grid(gs)
+            ref = g.cell_volumes.sum() / g.num_cells
+            if (g.cell_volumes.min() > (0.05 if gs["kind"] != "deltri" else 0.02) * ref and np.all(np.isfinite(g.face_normals))
+                    and np.all(np.isfinite(g.cell_centers))):
+                return g
+        except Exception:
+            pass
+        REJECTED["grids"] += 1
         if gs["kind"] == "deltri":
             gs["pseed"] = rng.randrange(10**6)
         else:
             gs["pert"] = str(_F(gs["pert"]) / 2) if _F(gs["pert"]) > Fraction(1, 16) else "0"
     gs["pert"] = "0"
     gs["npts"] = 0
+    gs.pop("pts", None)
     return build_grid(gs)
 
 
@@ -551,7 +561,11 @@ def degenerate(case):
     cells at a corner are collinear with the two boundary face centres).  Decided from geometry and boundary types only."""
     key = json.dumps({k: case[k] for k in ("grid", "neu", "eta", "lam", "mu")}, sort_keys=True)
     if key not in _DEGENERATE:
-        s = _setup(case)
+        try:
+            s = _setup(case)
+        except Exception:  # a grid porepy itself rejects: the oracle reports it (key setup-raises), nothing to skip here
+            _DEGENERATE[key] = False
+            return False
         T = _topology(s)
         worst = 0.0
         for R in _regions(s, T, range(s["g"].num_nodes)):
@@ -882,6 +896,7 @@ def stats(cases, impl_outs):
     bcs = Counter("alldir" if not c["neu"] else "mixed" for c in cases)
     regs = [r for o in impl_outs if isinstance(o, dict) and "regions" in o for r in o["regions"]]
     return {"grids": dict(kinds), "fields": dict(fields), "boundary": dict(bcs),
+            "grids_rejected_by_generator_guard": REJECTED["grids"],
             "strata": {"entry_subface_bc": sum(1 for c in cases if c.get("entry") == "subface"),
                        "coordinates_scaled_2^-10_or_2^10": sum(1 for c in cases if c["grid"].get("scale")),
                        "stiffness_scaled_2^30": sum(1 for c in cases if _F(c["mu"]) >= 2**20),
